@@ -85,6 +85,19 @@ theorem resolveValue_nonNull (c : Model.ExecStatic.Ctx) (rec : String → String
     resolveValue c rec (.nonNull t) rv ss path pos = nnWrap (resolveValue c rec t rv ss path pos) := by
   cases rv <;> simp_all [resolveValue]
 
+theorem rewriteLast_ne_nil (p : List PathSeg) (es : List GErr) (h : es ≠ []) : rewriteLast p es ≠ [] := by
+  cases es with
+  | nil => exact absurd rfl h
+  | cons e rest => cases rest <;> simp [rewriteLast]
+
+theorem itemWrap_val (D : Defects) (p : List PathSeg) (r : Res) : (itemWrap D p r).val = r.val := by
+  unfold itemWrap; split <;> rfl
+
+theorem itemWrap_errs_ne (D : Defects) (p : List PathSeg) (r : Res) (h : r.errs ≠ []) : (itemWrap D p r).errs ≠ [] := by
+  unfold itemWrap; split
+  · exact rewriteLast_ne_nil p r.errs h
+  · exact h
+
 /-- Completion never loses an error, and a `null` that comes without an error can only be a
     `null` the resolver itself returned. -/
 theorem resolveValue_props (c : Model.ExecStatic.Ctx) (hD : c.D.nanNullInNonNull = false)
@@ -135,7 +148,8 @@ theorem resolveValue_props (c : Model.ExecStatic.Ctx) (hD : c.D.nanNullInNonNull
       · simp
       · rename_i hall
         simp
-        have hall' : ∃ r ∈ joinAll (mapIdx (fun i x (_ : Unit) => resolveValue c rec t x ss (path ++ [PathSeg.idx i]) pos) xs 0),
+        have hall' : ∃ r ∈ joinAll (mapIdx (fun i x (_ : Unit) =>
+              itemWrap c.D (path ++ [PathSeg.idx i]) (resolveValue c rec t x ss (path ++ [PathSeg.idx i]) pos)) xs 0),
             r.val.isSome = false := by
           simpa [List.all_eq_true] using hall
         obtain ⟨r, hr, hnone⟩ := hall'
@@ -143,8 +157,9 @@ theorem resolveValue_props (c : Model.ExecStatic.Ctx) (hD : c.D.nanNullInNonNull
         obtain ⟨f, hf, rfl⟩ := joinAll_mem _ r hr
         obtain ⟨j, x, rfl⟩ := mapIdx_mem _ xs 0 f hf
         have hv : (resolveValue c rec t x ss (path ++ [PathSeg.idx j]) pos).val = none := by
+          rw [itemWrap_val] at hnone
           cases h : (resolveValue c rec t x ss (path ++ [PathSeg.idx j]) pos).val <;> simp_all
-        exact (ih x ss (path ++ [PathSeg.idx j]) pos).1 hv
+        exact itemWrap_errs_ne _ _ _ ((ih x ss (path ++ [PathSeg.idx j]) pos).1 hv)
     | obj ty id => simp [resolveValue]
     | leaf v => simp [resolveValue]
     | fail m => simp [resolveValue]
